@@ -24,7 +24,7 @@ def build(ctx):
     app = mod('app', mod('approot', app_use + ar.text()))
     sm = sumu.summary_src(ctx)
     stubs = open(os.path.join(os.path.dirname(os.path.dirname(os.path.abspath(__file__))), 'shim', 'util_stubs.rs')).read()
-    head = shim('base', 'std').replace('verus! {\n/// Trusted contracts for std', fxu.MACROS + 'verus! {\n/// Trusted contracts for std', 1)
+    head = drvu.with_csv_stubs(shim('base', 'std').replace('verus! {\n/// Trusted contracts for std', fxu.MACROS + 'verus! {\n/// Trusted contracts for std', 1))
     return (head + "verus! {\n"
             + bk.assemble(p, extra_util=stubs,
                           extra_portfolio=mod('io', mod('tx_loader', f['txl']) + drvu.tx_csv_part(ctx)) + o['mods'] + mod('summary', sm.text()),
